@@ -595,15 +595,22 @@ func (m *machine) scalarBinary0(op string, a, b Value) Value {
 		}
 	case wgen.AbsFloat:
 		x, y := a.F, b.F
+		absf := func(r float64) Value {
+			// an abstract-float result that is not finite is a shader-creation error
+			if math.IsNaN(r) || math.IsInf(r, 0) {
+				m.ev.NonFinite++
+			}
+			return Value{F: r}
+		}
 		switch op {
 		case "+":
-			return Value{F: x + y}
+			return absf(x + y)
 		case "-":
-			return Value{F: x - y}
+			return absf(x - y)
 		case "*":
-			return Value{F: x * y}
+			return absf(x * y)
 		case "/":
-			return Value{F: x / y}
+			return absf(x / y)
 		case "==":
 			return BoolV(x == y)
 		case "!=":
